@@ -237,8 +237,45 @@ func c01CachePuts(c *Ctx, eng *slicefx.Engine, cfg slicefx.OrderConfig) {
 					limOK = true
 				}
 			}
+			sortedOK := eng.SortedAt(fn, call, args[3], cfg)
+			// a storing step handed (options, list): the facts are those of the
+			// list and the options at every call of the step
+			if lp, op := c01StoreStepParams(fn); lp != nil && op != nil && (!limOK && !b.Empty || !sortedOK) {
+				if _, lenOfParam := b.Lens[lp.Name()]; lenOfParam && want == "param:"+op.Name()+".Limit" {
+					inner := eng.SortedAtAssuming(fn, call, args[3], cfg, map[ssa.Value]bool{lp: true})
+					allB, allS, nSites := true, inner, 0
+					li, oi := paramIdx(fn, lp), paramIdx(fn, op)
+					if node := c.P.CallGraph().Nodes[fn]; node != nil {
+						for _, e := range node.In {
+							if !isShipped(c, e.Caller.Func) {
+								continue
+							}
+							cs, ok := e.Site.(*ssa.Call)
+							if !ok || cs.Common().StaticCallee() != fn {
+								allB, allS = false, false
+								continue
+							}
+							nSites++
+							g := e.Caller.Func
+							a := cs.Common().Args
+							b2 := eng.BoundsOf(g, a[li])
+							w2 := eng.FieldLimitKey(g, a[oi], "Limit")
+							if _, ok := b2.Limits[w2]; !(ok && w2 != "") && !b2.Empty {
+								allB = false
+							}
+							if !eng.SortedAt(g, cs, a[li], cfg) {
+								allS = false
+							}
+						}
+					}
+					if nSites > 0 {
+						limOK = limOK || allB
+						sortedOK = sortedOK || allS
+					}
+				}
+			}
 			r.Check(limOK || b.Empty, "O-1", key+":bounded", c.P.Pos(call.Pos()), "the list cached is bounded by the Limit it is filed under ("+want+")", "a list is cached that is not bounded by the Limit of its cache key ("+want+"): "+b.String()+"; later hits return more than the limit")
-			r.Check(eng.SortedAt(fn, call, args[3], cfg), "O-3", key+":sorted", c.P.Pos(call.Pos()), "the list cached is sorted by descending Score", "a list is cached that is not known to be sorted by descending Score")
+			r.Check(sortedOK, "O-3", key+":sorted", c.P.Pos(call.Pos()), "the list cached is sorted by descending Score", "a list is cached that is not known to be sorted by descending Score")
 		}
 	}
 	r.Floor("O-1", "cache Put sites", n, 1)
@@ -968,4 +1005,36 @@ func intervalOf(sx *symx.Ctx, fn *ssa.Function, v ssa.Value, at *ssa.BasicBlock)
 	}
 	iv := interval.New(sx.Of(fn)).At(v, at)
 	return iv.LoOK && iv.Lo >= 0
+}
+
+// c01StoreStepParams: fn is an unexported step with exactly one result-list
+// parameter and one SearchOptions parameter; returns them.
+func c01StoreStepParams(fn *ssa.Function) (list, opts *ssa.Parameter) {
+	if obj := fn.Object(); obj == nil || obj.Exported() || fn.Parent() != nil {
+		return nil, nil
+	}
+	for _, p := range fn.Params {
+		switch {
+		case srSlice(p.Type()):
+			if list != nil {
+				return nil, nil
+			}
+			list = p
+		case ssau.NamedOf(p.Type()) == optType:
+			if opts != nil {
+				return nil, nil
+			}
+			opts = p
+		}
+	}
+	return
+}
+
+func paramIdx(fn *ssa.Function, p *ssa.Parameter) int {
+	for i, q := range fn.Params {
+		if q == p {
+			return i
+		}
+	}
+	return -1
 }
